@@ -195,6 +195,12 @@ func runC15(c *mon.Ctx) {
 		signed := true
 		sp.SignAuthnRequests = true
 		sp.SignAuthnRequestsCanonicalizer = pick(r, CanonChoices()).Obj
+		sigPrefix := "ds"
+		if ctx := sp.SigningContext(); ctx != nil {
+			// the signing context is the application's to tune: another prefix for the signature elements changes no structure
+			sigPrefix = pick(r, []string{"ds", "ds", "ds", "dsig", "xmldsig", "", "sig"})
+			ctx.Prefix = sigPrefix
+		}
 		var xml string
 		var err error
 		pv, stack := mon.Guard(func() {
@@ -228,7 +234,7 @@ func runC15(c *mon.Ctx) {
 				xml, err = buildSigned(sp, kind, args)
 			}
 		})
-		cs.Desc("kind=%s zone=%s now=%s classes=%v force=%v passive=%v rac=%v", kind, now.Format("-07:00"), now.Format(time.RFC3339Nano), o.Classes, sp.ForceAuthn, sp.IsPassive, sp.RequestedAuthnContext != nil)
+		cs.Desc("kind=%s zone=%s now=%s classes=%v force=%v passive=%v rac=%v sigprefix=%q", kind, now.Format("-07:00"), now.Format(time.RFC3339Nano), o.Classes, sp.ForceAuthn, sp.IsPassive, sp.RequestedAuthnContext != nil, sigPrefix)
 		if pv != nil {
 			cs.Violation("panic", "builder panicked: %v\n%s", pv, trunc(stack, 1500))
 			continue
